@@ -324,7 +324,7 @@ impl<'input> Lexer<'input> {
             // represent a physical character, instead it is a boundary marker.
             if let Some(pos) = self.query_end(start) {
                 // dbg!("RQuery"); // NOTE: uncomment this for debugging
-                return Some(Ok((pos, RQuery, pos + 1)));
+                return Some(Ok((pos, RQuery, self.char_end(pos))));
             }
 
             // Advance the internal iterator and emit the next token, or loop
@@ -393,7 +393,7 @@ impl<'input> Lexer<'input> {
                 // queries.
             } else if let Some(end) = self.rquery_indices.pop() {
                 // dbg!("RQuery"); // NOTE: uncomment this for debugging
-                return Some(Ok((end, RQuery, end + 1)));
+                return Some(Ok((end, RQuery, self.char_end(end))));
             }
 
             return None;
@@ -1297,6 +1297,15 @@ impl<'input> Lexer<'input> {
             rquery_indices: vec![],
             query_start: None,
         }
+    }
+
+    /// Byte offset just past the character that starts at `pos` (`pos + 1` at the end of input).
+    fn char_end(&self, pos: usize) -> usize {
+        pos + self
+            .input
+            .get(pos..)
+            .and_then(|s| s.chars().next())
+            .map_or(1, char::len_utf8)
     }
 
     fn bump(&mut self) -> Option<(usize, char)> {
